@@ -265,7 +265,7 @@ func main() {
 	}
 	maxLen, depth, seedDepth := 8, 5, 3
 	if !run.Quick() {
-		maxLen, depth, seedDepth = 10, 6, 3
+		maxLen, depth, seedDepth = 11, 6, 3
 	}
 	report := func(st seqx.Stats, maxLen int, what string) {
 		run.AddCounts(st.States, st.Transitions, st.Transitions)
